@@ -89,6 +89,78 @@ def _count_space(fn, e, depth=0):
     return None
 
 
+# which count member says how many entries an array has (frozen, like the spaces)
+ARRAY_COUNT = {
+    ("carquet_schema", "leaf_indices"): ("carquet_schema", "num_leaves"),
+    ("carquet_schema", "max_def_levels"): ("carquet_schema", "num_leaves"),
+    ("carquet_schema", "max_rep_levels"): ("carquet_schema", "num_leaves"),
+    ("carquet_schema", "elements"): ("carquet_schema", "num_elements"),
+    ("parquet_row_group", "columns"): ("parquet_row_group", "num_columns"),
+    ("parquet_file_metadata", "row_groups"): ("parquet_file_metadata", "num_row_groups"),
+    ("parquet_file_metadata", "schema"): ("parquet_file_metadata", "num_schema_elements"),
+    ("carquet_batch_reader", "col_readers"): ("carquet_batch_reader", "num_projected"),
+    ("carquet_batch_reader", "projected_columns"): ("carquet_batch_reader", "num_projected"),
+}
+
+
+def _var_counts(fn, d, dk, depth=0):
+    """The count members an index variable was compared against as an upper bound (`v < C`, `v >= C -> ...`), here or in
+    a callee it was handed to."""
+    out = set()
+    for n in fn.body.walk():
+        if n.k == "BinaryOperator" and n.op in ("<", ">="):
+            l, r = n.c[0].strip_casts(), n.c[1].strip_casts()
+            if l.k == "DeclRefExpr" and l.get("d") == d and l.get("dk") == dk:
+                k = _member_key(r)
+                if k in COUNT_SPACE:
+                    out.add(k)
+    if _P is not None and depth < 3:
+        for c in fn.calls():
+            for ai, a in enumerate(c.args()):
+                x = a.strip_casts() if a is not None else None
+                if x is None or x.k != "DeclRefExpr" or x.get("d") != d or x.get("dk") != dk:
+                    continue
+                for g in _P.by_name.get(c.callee or "", []):
+                    if g.cfg is None or g.key() == fn.key() or ai >= len(g.params):
+                        continue
+                    out |= _var_counts(g, g.params[ai]["d"], "param", depth + 1)
+    return out
+
+
+def check_counts(ctx, fns, rule="R13.index-count", key_prefix="index-count"):
+    """A subscript whose index was range-checked: the check must be against the count of *that* array. Two arrays of
+    the same index space can have different lengths in a malformed file (a row group with more chunks than the
+    schema has leaves), so a bound by the other array's count admits indices past the end of this one."""
+    global _P
+    P = _P = ctx.P
+    n = 0
+    for fn in fns:
+        seen = {}
+        for a in fn.body.walk():
+            if a.k != "ArraySubscriptExpr":
+                continue
+            k = _member_key(a.c[0])
+            if k not in ARRAY_COUNT:
+                continue
+            idx = a.c[1].strip_casts()
+            if idx.k != "DeclRefExpr" or idx.get("dk") not in ("local", "param"):
+                continue
+            counts = _var_counts(fn, idx.get("d"), idx.get("dk"))
+            if not counts:
+                continue
+            n += 1
+            key0 = "%s|%s:%s|%s[%s]" % (key_prefix, P.rel(fn.file), fn.name, k[1], src(idx)[:24])
+            seen[key0] = seen.get(key0, 0) + 1
+            key = key0 + ("#%d" % (seen[key0] - 1) if seen[key0] > 1 else "")
+            own = ARRAY_COUNT[k]
+            ctx.ob(rule, key, P.where(a),
+                   "the range check on `%s` is against %s.%s, the entry count of %s.%s" % (src(idx), own[0], own[1], k[0], k[1]),
+                   own in counts,
+                   "" if own in counts else "`%s` is only compared with %s: a file in which that exceeds %s.%s indexes past the end of %s" % (
+                       src(idx), ", ".join("%s.%s" % c for c in sorted(counts)), own[0], own[1], k[1]))
+    return n
+
+
 def _defs(fn, d):
     out = []
     for n in fn.body.walk():
